@@ -232,7 +232,7 @@ def returned_for_value(f, var, value, max_states=4000):
                 name, rhs = e['n'], e['init']
             elif e['k'] == 'asg' and e.get('op') == '=' and isinstance(strip(e['l']), dict) and strip(e['l']).get('k') == 'var':
                 name, rhs = strip(e['l'])['n'], e.get('r')
-            if name is not None and name != var:
+            if name is not None:
                 v = eval_int(rhs, env)
                 if v is None:
                     env.pop(name, None)
